@@ -1,6 +1,6 @@
 """C18 discovery from Linux/x86 snapshots (structural necessary conditions)."""
 from prog import *
-import filt, fsroot, progloops, snp, nullness
+import filt, fsroot, progloops, snp, nullness, linkfree
 
 FILTER_EXC = {
     ("hwloc__duplicate_object", "src->type"): "copies an object that already passed the (copied) filters of the source topology",
@@ -33,6 +33,9 @@ def run(chk, tier):
     chk.rule("R-FSROOT", "in topology-linux.c raw file-system calls are made only by the *at wrappers and the frozen owners; everything else goes through a wrapper with the backend's root fd")
     nf = fsroot.run(chk, P)
     chk.floor("R-FSROOT", "raw file-system call sites (owners)", nf, 10)
+    chk.rule("R-LINKFREE", "an object handed to an insertion function (which links, merges-and-frees or frees it) is never released afterwards by its creator: no feasible path from an insertion of x to hwloc_free_unlinked_object(x) (may-dataflow + correlated-condition path search)")
+    nlf = linkfree.run(chk, P, units=("topology-linux.c", "topology-x86.c", "pci-common.c", "topology-pci.c", "topology.c"))
+    chk.floor("R-LINKFREE", "release sites in the discovery code and the core", nlf, 12)
     chk.rule("R-SNPSIZE", "snprintf into fixed path buffers bounded by sizeof")
     ns = snp.fixed_buffers(chk, P, ["topology-linux.c", "topology-x86.c", "topology-pci.c", "pci-common.c"])
     chk.floor("R-SNPSIZE", "fixed-buffer snprintf sites", ns, 60)
